@@ -4,7 +4,7 @@ From Coq Require Import QArith Qabs Qminmax List ZArith Reals.
 From SV Require Import Model.C14_Fit1d Model.C14_Dubins Model.C14_Reparam Model.C14_Misc.
 From SV Require Gen.BasisC14.
 From SV Require Import Proofs.C14_Fit1d_Base Proofs.C14_Fit1d_Rows Proofs.C14_Fit1d Proofs.C14_Fit1d_Dump.
-From SV Require Import Proofs.C14_Dubins Proofs.C14_Reparam Proofs.C14_Misc Proofs.C14_Extra.
+From SV Require Import Proofs.C14_Dubins Proofs.C14_Reparam Proofs.C14_ReparamLP Proofs.C14_Misc Proofs.C14_Extra.
 Import ListNotations.
 Local Open Scope Q_scope.
 
@@ -38,14 +38,21 @@ Theorem C14_kkt_solution_feasible : forall s od dt dx lv rv z,   (1 <= npts dt d
 Proof. exact Proofs.C14_Fit1d.kkt_solution_feasible. Qed.
 Print Assumptions C14_kkt_solution_feasible.
 
-Theorem C14_fit1d_output_feasible : forall s (lu ldlt : list (list Q) -> list Q -> list Q) dt dx lv rv, (1 <= npts dt dx)%nat ->
+Theorem C14_kkt_H_blocks : forall s od dt dx r col,
+  (1 <= npts dt dx)%nat -> (r < n_eq s (npts dt dx))%nat -> (col < n_coef s (npts dt dx))%nat ->
+  mget (kkt_H s od dt dx) (n_coef s (npts dt dx) + r) col = mget (A_dense s dt dx) r col
+  /\ mget (kkt_H s od dt dx) col (n_coef s (npts dt dx) + r) = mget (A_dense s dt dx) r col.
+Proof. exact Proofs.C14_Fit1d.kkt_H_blocks. Qed.
+Print Assumptions C14_kkt_H_blocks.
+
+Theorem C14_fit1d_output_feasible : forall s (lu : list (list Q) -> list Q -> list Q) dt dx lv rv, (1 <= npts dt dx)%nat ->
   (OptDeg s = None ->
      Forall2 Qeq (mat_vec (A_dense s dt dx) (lu (A_dense s dt dx) (b_vec s dt dx lv rv))) (b_vec s dt dx lv rv)) ->
   (forall od, OptDeg s = Some od ->
-     let z := ldlt (kkt_H s od dt dx) (kkt_rhs s dt dx lv rv) in
+     let z := lu (kkt_H s od dt dx) (kkt_rhs s dt dx lv rv) in
      length z = (n_coef s (npts dt dx) + n_eq s (npts dt dx))%nat /\
      Forall2 Qeq (mat_vec (kkt_H s od dt dx) z) (kkt_rhs s dt dx lv rv)) ->
-  Forall2 Qeq (mat_vec (A_dense s dt dx) (fit_spline_1d s lu ldlt dt dx lv rv)) (b_vec s dt dx lv rv).
+  Forall2 Qeq (mat_vec (A_dense s dt dx) (fit_spline_1d s lu dt dx lv rv)) (b_vec s dt dx lv rv).
 Proof. exact Proofs.C14_Fit1d.fit1d_output_feasible. Qed.
 Print Assumptions C14_fit1d_output_feasible.
 
@@ -262,8 +269,17 @@ Theorem C14_num_pts_covers_index :
   forall K t0 t1 dt t,
   0 < dt -> t0 <= t -> t <= t1 ->
   (0 <= bs_istar t0 dt t)%Z /\ (bs_istar t0 dt t + K + 1 <= num_pts K t0 t1 dt)%Z.
-Proof. exact Proofs.C14_Extra.num_pts_covers_index. Qed.
+Proof. exact Proofs.C14_Misc.num_pts_covers_index. Qed.
 Print Assumptions C14_num_pts_covers_index.
+
+Theorem C14_num_pts_is_last_index : forall K t0 t1 dt,
+  num_pts K t0 t1 dt = (bs_istar t0 dt t1 + K + 1)%Z.
+Proof. exact Proofs.C14_Misc.num_pts_is_last_index. Qed.
+Print Assumptions C14_num_pts_is_last_index.
+
+Theorem C14_num_pts_eq_old : forall K t0 t1 dt, 0 < dt -> num_pts K t0 t1 dt = num_pts_old K t0 t1 dt.
+Proof. exact Proofs.C14_Misc.num_pts_eq_old. Qed.
+Print Assumptions C14_num_pts_eq_old.
 
 Theorem C14_reparam_onto_clamp_refuted :
   exists s0 ds n start_vel v2max dofs amin amax tmax,
@@ -276,3 +292,56 @@ Theorem C14_reparam_onto_clamp_refuted :
                  /\ 0 < g_dt g /\ seg_val g 1 < g_g0 g + ds /\ seg_val g 1 + (1 # 10) < tmax.
 Proof. exact Proofs.C14_Extra.reparam_onto_clamp_refuted. Qed.
 Print Assumptions C14_reparam_onto_clamp_refuted.
+
+Theorem C14_bwd_rows_count : forall ds ynext dof vmin vmax amin amax n,
+  length dof = n -> length vmin = n -> length vmax = n -> length amin = n -> length amax = n ->
+  length (bwd_rows ds ynext dof vmin vmax amin amax) = (2 + 3 * n)%nat.
+Proof. exact Proofs.C14_ReparamLP.bwd_rows_count. Qed.
+Print Assumptions C14_bwd_rows_count.
+
+Theorem C14_bwd_feasible_next : forall ds ynext dof vmin vmax amin amax y a,
+  Forall (row_sat y a) (bwd_rows ds ynext dof vmin vmax amin amax) ->
+  0 <= y + 2 * ds * a /\ (forall yn, ynext = Some yn -> y + 2 * ds * a <= yn).
+Proof. exact Proofs.C14_ReparamLP.bwd_feasible_next. Qed.
+Print Assumptions C14_bwd_feasible_next.
+
+Theorem C14_lp_feasible_fwd_radicand_nonneg : forall ds v2max dofs vmin vmax amin amax i vi2 a ai,
+  0 < ds ->
+  Forall (row_sat vi2 a) (bwd_rows ds (nth (S i) v2max None) (nth i dofs []) vmin vmax amin amax) ->
+  acc_bound ds v2max dofs amin amax i vi2 = Some ai ->
+  a <= ai /\ 0 <= vi2 + 2 * ds * ai.
+Proof. exact Proofs.C14_ReparamLP.lp_feasible_fwd_radicand_nonneg. Qed.
+Print Assumptions C14_lp_feasible_fwd_radicand_nonneg.
+
+Theorem C14_reparam_lp_row4_radicand_nonneg : forall ds v2max dofs vmin vmax amin amax i Y A vi2 ai,
+  0 < ds -> 0 < Y -> 0 <= vi2 -> vi2 <= Y ->
+  Forall (fun x => 0 <= x) amax -> Forall (fun x => x <= 0) amin ->
+  (forall yn, nth (S i) v2max None = Some yn -> 0 <= yn) ->
+  Forall (row_sat Y A) (bwd_rows ds (nth (S i) v2max None) (nth i dofs []) vmin vmax amin amax) ->
+  acc_bound ds v2max dofs amin amax i vi2 = Some ai ->
+  0 <= vi2 + 2 * ds * ai.
+Proof. exact Proofs.C14_ReparamLP.reparam_lp_row4_radicand_nonneg. Qed.
+Print Assumptions C14_reparam_lp_row4_radicand_nonneg.
+
+Theorem C14_bwd_rows_without_row4_refuted :
+  exists ds ynext dof vmin vmax amin amax y a,
+    0 < ds /\ Forall (row_sat y a) (removelast (bwd_rows ds ynext dof vmin vmax amin amax))
+    /\ y + 2 * ds * a < 0.
+Proof. exact Proofs.C14_ReparamLP.bwd_rows_without_row4_refuted. Qed.
+Print Assumptions C14_bwd_rows_without_row4_refuted.
+
+Theorem C14_onto_clamp_witness_excluded_by_row4 : forall vmin vmax a,
+  ~ Forall (row_sat (1 # 4) a) (bwd_rows (1 # 4) None [(1, 8)] vmin vmax [- (1)] [1]).
+Proof. exact Proofs.C14_ReparamLP.onto_clamp_witness_excluded_by_row4. Qed.
+Print Assumptions C14_onto_clamp_witness_excluded_by_row4.
+
+Theorem C14_reparam_clamp_gap_partial : forall (sq : Q -> Q) s0 ds i vi2 a g,
+    0 < ds -> eps <= vi2 -> a <= - eps ->
+    0 <= vi2 + 2 * ds * a -> vi2 + 2 * ds * a < eps ->
+    Forall (sq_exact sq) (t_rads (fwd_step sq s0 ds i vi2 (Some a))) ->
+    t_seg (fwd_step sq s0 ds i vi2 (Some a)) = Some g ->
+    (g_g0 g + ds - seg_val g 1) * (2 * - a) == eps - (vi2 + 2 * ds * a)
+    /\ 0 <= g_g0 g + ds - seg_val g 1
+    /\ (g_g0 g + ds - seg_val g 1) * (2 * - a) <= eps.
+Proof. exact Proofs.C14_ReparamLP.reparam_clamp_gap_partial. Qed.
+Print Assumptions C14_reparam_clamp_gap_partial.
